@@ -168,6 +168,11 @@ def Tensor.constLike (c : R) (shape : List Nat) : Tensor R :=
 /-- `t + scalar` -/
 def Tensor.scalarAdd (c : R) (t : Tensor R) : Tensor R := t.add (Tensor.constLike c t.shape)
 
+/-- `-t = -1 * t` : `|−1|^(1/N) = 1`, sign `−1` -/
+def Tensor.neg [Neg R] (t : Tensor R) : Tensor R := t.scalarMul 1 (-1)
+/-- `a - b = a + -1 * b` (tensor.py:676-678) -/
+def Tensor.sub [Neg R] (t u : Tensor R) : Tensor R := t.add u.neg
+
 end
 
 end TN
